@@ -59,3 +59,10 @@ Theorem C07_budget :
   forall pop_size gens, fold_left (fun acc (_ : unit) => acc + pop_size) (repeat tt gens) pop_size = pop_size * (gens + 1).
 Proof. exact budget_sum. Qed.
 Print Assumptions C07_budget.
+
+(* ---- binary64, all values but NaN (Base/NumFOrd.v, Flocq) ---- *)
+From PV Require Import Base.NumF Base.NumFOrd.
+Lemma C07_nonnanf_zero : nonnanf (Num.zero Fn).
+Proof. reflexivity. Qed.
+Definition C07_DE_nodup_float_nn := C07_DE_nodup Fn nonnanf Fn_ord_nn C07_nonnanf_zero.
+Print Assumptions C07_DE_nodup_float_nn.
